@@ -4,7 +4,7 @@ ENGINES = [
     {
         "name": "symx",
         "path": "/verif/symx",
-        "serves_properties": ["C03", "C04", "C06", "C07", "C08", "C12", "C13", "C16", "C17", "C18"],
+        "serves_properties": ["C01", "C03", "C04", "C06", "C07", "C08", "C12", "C13", "C16", "C17", "C18"],
         "kind_free_text": "own symbolic executor: geoh5py's real functions run under CPython with the module-global "
         "`np` (and, for file paths, `h5py`) rebound to z3-backed models; re-execution DFS forks on symbolic "
         "branches; obligations are z3 validity queries; counterexamples are replayed on real numpy/h5py",
@@ -173,6 +173,24 @@ CLAIMED["C12"] = _symx(
 )
 CLAIMED["C12"]["design_ref"] = "DESIGN.md section 12.8"
 
+CLAIMED["C01"] = _symx(
+    "C01",
+    "bounded symbolic execution of sequences of real API operations (setters, rename, move, copy, remove_vertices / remove_cells, "
+    "remove_entity, add_data, property-group edits, close + re-open) on a stored tree with symbolic geometry and values; the "
+    "operation at each step is a symbolic choice (every sequence of the bounded length is one explored path); z3 validity of "
+    "'tree read by a fresh Workspace == tree the live workspace shows', term by term; counterexamples replayed on real numpy/h5py",
+    "bounded symbolic model checking, partial: for every sequence of 2 (thorough: 3) operations from an alphabet of 15 on a tree of "
+    "two groups, one object (3-vertex point set or curve) with symbolic vertices, a float data set with symbolic values, an integer "
+    "data set and a property group, the real code runs on a real HDF5 file (proxy keeps symbolic payloads) and z3 proves that a "
+    "fresh Workspace shows exactly the entities the live one shows (none lost, duplicated or resurrected), each with the same "
+    "class, parent, name, flags, vertices, cells, values and property-group membership. Newly assigned arrays, the removed "
+    "vertex / cell index and new cell indices are symbolic. Garbage-collection placement, other entity classes, longer "
+    "sequences and more objects are outside.",
+    _SYMX_NOTE + "; A-H5: symbolic payloads are kept beside the real HDF5 file by a proxy and handed back unchanged; names, flags "
+    "and the tree shape are concrete; GC timing is not modelled",
+)
+CLAIMED["C01"]["design_ref"] = "DESIGN.md section 12.11"
+
 _XH_NOTE = (
     "trusted: CrossHair 0.0.110 (symbolic execution of CPython code with z3) and its models of builtins; the harness "
     "functions call the real geoh5py kernels directly (no translation); holds only within the value bounds in the evidence"
@@ -236,8 +254,6 @@ CLAIMED["C06"] = {
 _NOT_BUILT = "check not built yet (planned, see DESIGN.md section 5)"
 
 NOT_APPLICABLE = {
-    "C01": "quantifies over histories of API calls on an object graph persisted through the HDF5 C library with GC "
-    "points as schedule; no value-level computation a solver could decide (per-attribute core is under C03/C08)",
     "C02": "validity of the HDF5 link graph is produced by the h5py C library under call histories; nothing symbolic "
     "to decide, a fake h5 layer would only restate the stub",
     "C05": "deletion is pointer surgery on child lists, property-group lists and HDF5 links over discrete object-graph "
